@@ -187,7 +187,8 @@ def triage(prop, engine, eng, viol_rows, seed, tier, minimise=True):
     maxg = int(os.environ.get("VERIF_MAX_GROUPS", "6"))
     mspecs = [{"mode": "minimise", "engine": engine, "case": gr["row"]["case"],
                "signature": gr["v"]["signature"], "hash_seed": gr["row"]["_hash_seed"],
-               "budget_s": int(os.environ.get("VERIF_MINIMISE_S", "60"))} for gr in new_groups[:maxg]]
+               "budget_s": int(os.environ.get("VERIF_MINIMISE_S", "60")),
+               "avoid_known": [e for e in known if e.get("property") == prop]} for gr in new_groups[:maxg]]
     mouts = fleet.run_nodes(mspecs, timeout=400) if (minimise and mspecs) else []
     for n, gr in enumerate(new_groups[:maxg]):
         row, v = gr["row"], gr["v"]
